@@ -24,7 +24,7 @@ ASSUMPTIONS = [
     "key-value block contents and CONFIG lines are excluded from the alignment rule (the property speaks of simple keywords of an object)",
 ]
 TIERS = {
-    "quick": {"examples": 3000, "sets_per_doc": 4, "corpus_sets": 5, "budget_s": 110},
+    "quick": {"examples": 8000, "sets_per_doc": 4, "corpus_sets": 10, "budget_s": 110},
     "thorough": {"examples": 40000, "sets_per_doc": 8, "corpus_sets": 150, "budget_s": 1800},
 }
 PARTS = ["corpus_part", "search"]
